@@ -363,7 +363,7 @@ impl<T> State<T> {
             Side::Receiver => self.sender.wake(),
         }
 
-        let was_open = self.open.swap(false, Ordering::SeqCst);
+        self.open.store(false, Ordering::SeqCst);
 
         // make sure the peer is notified before fully dropping the contents
         match side {
@@ -371,10 +371,18 @@ impl<T> State<T> {
             Side::Receiver => self.sender.wake(),
         }
 
-        if !was_open {
+        // The allocation is freed by whichever side _finishes_ closing last, rather than the
+        // side that flipped `open` second: the first closer still touches the header (the `wake`
+        // above) after flipping `open`, so it must not be freed out from under it.
+        //
+        // The header must not be accessed after this point, unless we are the last handle.
+        let is_last = self.handles.fetch_sub(1, Ordering::AcqRel) == 1;
+
+        if is_last {
             unsafe {
                 // Safety: we synchronization closing between the two peers through atomic
-                // variables. At this point both sides have agreed on its final state.
+                // variables. At this point both sides have agreed on its final state and the
+                // peer is done accessing the header.
                 self.drop_contents();
             }
         }
@@ -485,6 +493,8 @@ pub struct Header<T> {
     head: CachePadded<AtomicUsize>,
     tail: CachePadded<AtomicUsize>,
     open: CachePadded<AtomicBool>,
+    /// The number of handles (sender and receiver) that have not finished closing
+    handles: AtomicUsize,
     pub receiver: AtomicWaker,
     pub sender: AtomicWaker,
     data: PhantomData<T>,
@@ -526,6 +536,7 @@ impl<T> Header<T> {
             sender: AtomicWaker::new(),
             receiver: AtomicWaker::new(),
             open: CachePadded::new(AtomicBool::new(true)),
+            handles: AtomicUsize::new(2),
             data: PhantomData,
         }
     }
